@@ -4,6 +4,7 @@ package main
 
 import (
 	"fmt"
+	"go/ast"
 	"go/token"
 	"go/types"
 	"sort"
@@ -72,6 +73,7 @@ type FuncExec struct {
 	modelTerms map[string]string
 	usedCallSites map[*CallSiteSpec]bool
 	guardOnly bool
+	heldOnEntry map[string]bool
 }
 
 type retRec struct {
@@ -268,15 +270,15 @@ func (fx *FuncExec) runBody() {
 	fx.paramVals = map[string]Val{}
 	fx.modelTerms = map[string]string{}
 	top := fx.heapTerm(st, topKey, "Int", nil)
+	fx.em.Assert(fmt.Sprintf("(>= %s 0)", top))
 	for _, p := range fn.Params {
 		s := fx.em.SortOf(p.Type())
 		name := q("p:" + p.Name())
 		fx.em.DeclareBase("p:"+p.Name(), fmt.Sprintf("(declare-const %s %s)", name, s))
 		v := Val{T: p.Type(), S: name, Sort: s}
 		fx.typeFacts(v)
-		if isRefType(p.Type()) {
-			fx.em.Assert(fmt.Sprintf("(<= %s %s)", name, top))
-		}
+		fx.refFacts(st, v)
+		_ = top
 		fx.vals[p] = v
 		fx.paramVals[p.Name()] = v
 		fx.modelTerms[p.Name()] = name
@@ -297,6 +299,16 @@ func (fx *FuncExec) runBody() {
 	if fx.fc != nil {
 		env := fx.specEnv(st, st)
 		for _, r := range fx.fc.Requires {
+			// `requires held(x.mutex)`: the lock is held on entry (and stays the caller's to release)
+			if call, ok := r.Expr.(*ast.CallExpr); ok {
+				if id, ok := call.Fun.(*ast.Ident); ok && id.Name == "held" {
+					l := fx.evalLoc(env, call.Args[0])
+					key := fx.locString(l)
+					st.locks[key] = "true"
+					fx.heldOnEntry[key] = true
+					continue
+				}
+			}
 			t := fx.evalBool(env, r)
 			fx.em.Assert(t)
 		}
@@ -780,9 +792,7 @@ func (fx *FuncExec) execUnOp(st *State, x *ssa.UnOp) {
 		fx.checkGuard(st, v, x.Pos(), "read")
 		fx.nilCheckPtr(st, v, "load through nil pointer")
 		r := fx.Deref(st, v)
-		if r.S != "" && isRefType(r.T) {
-			fx.em.Assert(fmt.Sprintf("(<= %s %s)", r.S, fx.heapTerm(st, topKey, "Int", nil)))
-		}
+		fx.refFacts(st, r)
 		if r.S != "" {
 			fx.def(x, r)
 		} else {
@@ -1323,6 +1333,9 @@ func (fx *FuncExec) finish() {
 	}
 	sort.Strings(lks)
 	for _, k := range lks {
+		if fx.heldOnEntry[k] {
+			continue
+		}
 		fx.oblige("unlock", exit, not(exit.locks[k]), "lock "+k+" is released on every return path", pos)
 	}
 	if fx.fc == nil {
